@@ -53,6 +53,7 @@ type Cfg struct {
 	Flush     time.Duration `json:"flush"`
 	Limit413  int           `json:"limit_413"` // >0: the endpoint answers 413 to bodies larger than this
 	Retry     int           `json:"retry"`
+	Copy      bool          `json:"copy_fields,omitempty"` // splunk: copy svc to fields.svc of the envelope
 	Events    []Ev          `json:"events"`
 }
 
@@ -75,6 +76,7 @@ func (h *H) Gen(rng *rand.Rand, tier, prop string) core.Cfg {
 	c.Flush = core.DurBetween(rng, 10*time.Millisecond, 300*time.Millisecond)
 	c.Retry = core.Pick(rng, 0, 2, 5)
 	c.Gzip = c.Sink != "kafka" && core.Chance(rng, 0.2)
+	c.Copy = c.Sink == "splunk" && core.Chance(rng, 0.6)
 	if c.Sink == "es" || c.Sink == "http" {
 		c.Split = core.Chance(rng, 0.5)
 		if core.Chance(rng, 0.5) {
@@ -400,6 +402,26 @@ func (r *run) endpoint(c *simfasthttp.Call) simfasthttp.Reply {
 				continue
 			}
 			ids = append(ids, r.checkDoc(ev, req, i, ok, where))
+			// the envelope carries this event's copied fields and nothing else
+			var wantFields any
+			if em, isMap := ev.(map[string]any); isMap && cfg.Copy {
+				if v, hasSvc := em["svc"]; hasSvc {
+					wantFields = map[string]any{"svc": v}
+				}
+			}
+			envKeys := make([]string, 0, len(env))
+			for k := range env {
+				envKeys = append(envKeys, k)
+			}
+			sort.Strings(envKeys)
+			for _, k := range envKeys {
+				if k != "event" && !(k == "fields" && wantFields != nil) {
+					r.viol("envelope-field-of-another-event", "%s: envelope #%d carries %q although its event has nothing to copy there: %v", where, i, k, env)
+				}
+			}
+			if wantFields != nil && !reflect.DeepEqual(env["fields"], wantFields) {
+				r.viol("envelope-copied-field-wrong", "%s: envelope #%d: fields=%v, expected %v", where, i, env["fields"], wantFields)
+			}
 		}
 	}
 	// batch order inside one payload
@@ -499,7 +521,11 @@ func (h *H) Run(cc core.Cfg, sim *simrt.Sim) *core.Outcome {
 		case "http":
 			js = fmt.Sprintf(`{"endpoints":["http://sink:8080/in"],"split_batch":%v,"connection_timeout":"1s",%s%s}`, cfg.Split, common, gz)
 		case "splunk":
-			js = fmt.Sprintf(`{"endpoint":"http://splunk:8088/services/collector","token":"t","request_timeout":"1s",%s%s}`, common, gz)
+			cp := ""
+			if cfg.Copy {
+				cp = `,"copy_fields":[{"from":"svc","to":"fields.svc"}]`
+			}
+			js = fmt.Sprintf(`{"endpoint":"http://splunk:8088/services/collector","token":"t","request_timeout":"1s",%s%s%s}`, common, gz, cp)
 		case "kafka":
 			js = fmt.Sprintf(`{"brokers":["sim:9092"],"default_topic":"logs","use_topic_field":true,"topic_field":"svc",%s}`, common)
 		}
